@@ -501,6 +501,51 @@ func runAddClosed(c *core.Ctx) {
 			bs = append(bs, b)
 		}
 	}
+	// the insertion helper itself: it answers "inserted" exactly on the paths that stored the
+	// event (a shortcut that answers true without storing makes Add run the kind-5 step and
+	// report 'new' for an event that is not retained; a store on a false path is reported 'not new')
+	if a.ins != a.add {
+		ins := a.ins
+		stores := map[*ssa.BasicBlock]bool{}
+		for _, mu := range mapUpdatesOn(ins, "recv.evs") {
+			if an.PathOf(mu.Value) == "p:"+ins.Params[len(ins.Params)-1].Name() {
+				stores[mu.Block()] = true
+			}
+		}
+		var insBad []string
+		nIns := 0
+		for _, verdict := range []bool{true, false} {
+			tps, ok := an.ResultPaths(ins, 0, verdict)
+			if !ok {
+				c.Unknown(nil, fname(c, ins), "stored-iff-true", P.Pos(ins.Pos()), "too many paths")
+				return
+			}
+			c.CountPaths(len(tps))
+			for _, tp := range tps {
+				stored := false
+				for b := range stores {
+					if tp.Visits(b) {
+						stored = true
+					}
+				}
+				nIns++
+				if stored != verdict {
+					last := tp.Path[len(tp.Path)-1]
+					insBad = append(insBad, fmt.Sprintf("answers %v at %s on a path that stored=%v", verdict, P.Pos(an.LastInstr(last).Pos()), stored))
+				}
+			}
+		}
+		uq := map[string]bool{}
+		var ib []string
+		for _, b := range insBad {
+			if !uq[b] {
+				uq[b] = true
+				ib = append(ib, b)
+			}
+		}
+		c.Check(len(ib) == 0 && len(stores) > 0, nil, fname(c, ins), "stored-iff-true", P.Pos(ins.Pos()), fmt.Sprintf("the insertion helper answers 'inserted' exactly on the paths that put the event into the store (%d paths)", nIns),
+			"the insertion helper's verdict and the store disagree: "+strings.Join(ib, "; ")+" — Add then reports an event as new (and applies its deletion request) although it is not retained, or the reverse")
+	}
 	c.Check(len(bs) == 0 && nTrue > 0, nil, fname(c, add), "true-paths", P.Pos(add.Pos()), fmt.Sprintf("all %d paths reporting 'new' either stored the event (and ran the kind-5 step) or are the ephemeral early return", nTrue),
 		"Add reports an event as new on a path that does not store it: "+strings.Join(bs, "; ")+" — an older version / a duplicate is reported new, or a deletion request is acknowledged without taking effect")
 }
